@@ -609,3 +609,151 @@ Proof.
         rewrite (path_from_to_child i cs c a b Hw Hc Hac Hbc).
         rewrite Forall_forall in IH. apply (IH c Hc); eauto. eapply wf_child; eauto.
 Qed.
+
+(* ================================================================================== *)
+(* distances from an arbitrary centre: re-rooting keeps nodes and adjacency            *)
+(* ================================================================================== *)
+Lemma adjacent_node_iff : forall i cs a b, adjacent (RNode i cs) a b <->
+  (a = i /\ exists c, In c cs /\ b = rid c) \/
+  (b = i /\ exists c, In c cs /\ a = rid c) \/
+  (exists c, In c cs /\ adjacent c a b).
+Proof.
+  intros i cs a b. split; [apply adjacent_inv|].
+  intros [[-> [c [Hc ->]]]|[[-> [c [Hc ->]]]|[c [Hc [H|H]]]]].
+  - left. apply edges_root; auto.
+  - right. apply edges_root; auto.
+  - left. eapply edges_child; eauto.
+  - right. eapply edges_child; eauto.
+Qed.
+
+Lemma remove_child_perm : forall cs c, NoDup (map rid cs) -> In c cs ->
+  Permutation (c :: remove_child (rid c) cs) cs.
+Proof.
+  induction cs as [|a cs IH]; intros c N Hc; [contradiction|]. simpl in N. inversion N; subst. simpl.
+  destruct Hc as [->|Hc].
+  - rewrite Nat.eqb_refl. reflexivity.
+  - destruct (Nat.eqb (rid a) (rid c)) eqn:E.
+    + apply Nat.eqb_eq in E. exfalso. apply H1. rewrite E. apply in_map. exact Hc.
+    + eapply perm_trans; [apply perm_swap|]. constructor. apply IH; auto.
+Qed.
+
+Lemma map_rid_NoDup' : forall cs, NoDup (flat_map ids cs) -> NoDup (map rid cs).
+Proof.
+  induction cs as [|c cs IH]; intros H; simpl; [constructor|].
+  simpl in H. destruct (NoDup_app_inv _ _ H) as [_ [H2 Hd]]. constructor; auto.
+  intro Hi. apply in_map_iff in Hi. destruct Hi as [g [Eg Hg]].
+  apply (Hd (rid c) (rid_in_ids c)). apply in_flat_map. exists g. split; auto. rewrite <- Eg. apply rid_in_ids.
+Qed.
+
+(* what is adjacent through the part `up` hanging above t *)
+Definition adj_up (up : option rtree) (top a b : nat) : Prop :=
+  exists u, up = Some u /\ (adjacent u a b \/ (a = top /\ b = rid u) \/ (a = rid u /\ b = top)).
+
+Lemma reroot_at_spec : forall t x up r,
+  NoDup (ids t ++ flat_map ids (opt_list up)) -> reroot_at x up t = Some r ->
+  rid r = x /\ Permutation (ids r) (ids t ++ flat_map ids (opt_list up)) /\
+  (forall a b, adjacent r a b <-> adjacent t a b \/ adj_up up (rid t) a b).
+Proof.
+  induction t as [i cs IH] using rtree_ind2. intros x up r Hnd H. rewrite Forall_forall in IH.
+  simpl in H. destruct (Nat.eqb i x) eqn:E.
+  - apply Nat.eqb_eq in E. subst x. inversion H; subst r. clear H. split; [reflexivity|]. split.
+    + simpl. constructor. rewrite flat_map_app. apply Permutation_app_comm.
+    + intros a b. simpl rid. rewrite !adjacent_node_iff. unfold adj_up. split.
+      * intros [[-> [c [Hc ->]]]|[[-> [c [Hc ->]]]|[c [Hc Hadj]]]]; apply in_app_or in Hc; destruct Hc as [Hc|Hc].
+        -- destruct up as [u|]; simpl in Hc; [|contradiction]. destruct Hc as [->|[]]. right. exists c. auto.
+        -- left. left. eauto.
+        -- destruct up as [u|]; simpl in Hc; [|contradiction]. destruct Hc as [->|[]]. right. exists c. auto.
+        -- left. right. left. eauto.
+        -- destruct up as [u|]; simpl in Hc; [|contradiction]. destruct Hc as [->|[]]. right. exists c. auto.
+        -- left. right. right. eauto.
+      * intros [[[-> [c [Hc ->]]]|[[-> [c [Hc ->]]]|[c [Hc Hadj]]]]|[u [-> [Hadj|[[-> ->]|[-> ->]]]]]].
+        -- left. split; auto. exists c. split; auto. apply in_or_app; auto.
+        -- right. left. split; auto. exists c. split; auto. apply in_or_app; auto.
+        -- right. right. exists c. split; auto. apply in_or_app; auto.
+        -- right. right. exists u. split; auto. apply in_or_app. left. left. reflexivity.
+        -- left. split; auto. exists u. split; auto. apply in_or_app. left. left. reflexivity.
+        -- right. left. split; auto. exists u. split; auto. apply in_or_app. left. left. reflexivity.
+  - apply first_some_In in H. destruct H as [c [Hc H]].
+    set (u' := RNode i (opt_list up ++ remove_child (rid c) cs)) in *.
+    assert (Ncs : NoDup (map rid cs)).
+    { apply map_rid_NoDup'. simpl in Hnd. inversion Hnd; subst. apply NoDup_app_inv in H3. tauto. }
+    pose proof (remove_child_perm cs c Ncs Hc) as Pc.
+    assert (Pids : Permutation (ids c ++ flat_map ids (opt_list (Some u')))
+                               (ids (RNode i cs) ++ flat_map ids (opt_list up))).
+    { simpl. rewrite app_nil_r. rewrite flat_map_app.
+      apply Permutation_sym. apply Permutation_cons_app. apply Permutation_sym.
+      rewrite app_assoc. eapply perm_trans; [apply Permutation_app_tail; apply Permutation_app_comm|].
+      rewrite <- app_assoc. eapply perm_trans; [apply Permutation_app_comm|]. rewrite <- app_assoc.
+      eapply perm_trans; [apply Permutation_app_comm|]. rewrite <- app_assoc.
+      eapply perm_trans; [apply Permutation_app_comm|]. rewrite <- app_assoc.
+      apply Permutation_app_tail. exact (Permutation_flat_map ids Pc). }
+    destruct (IH c Hc x (Some u') r) as [Hr [Hp Hadj]]; auto.
+    { eapply Permutation_NoDup; [apply Permutation_sym; exact Pids | exact Hnd]. }
+    split; auto. split; [eapply perm_trans; eauto|].
+    intros a b. rewrite Hadj. unfold adj_up. simpl rid. rewrite adjacent_node_iff.
+    assert (Hin : forall g, In g cs <-> g = c \/ In g (remove_child (rid c) cs)).
+    { intros g. split.
+      - intros Hg. apply (Permutation_in _ (Permutation_sym Pc)) in Hg. destruct Hg; auto.
+      - intros Hg. apply (Permutation_in _ Pc). destruct Hg; [left|right]; auto. }
+    split.
+    + intros [Hc'|[u [Eu Hu]]].
+      * left. right. right. exists c. auto.
+      * inversion Eu; subst u. clear Eu. destruct Hu as [Hu|[[-> ->]|[-> ->]]].
+        -- unfold u' in Hu. apply adjacent_node_iff in Hu.
+           destruct Hu as [[-> [g [Hg ->]]]|[[-> [g [Hg ->]]]|[g [Hg Hga]]]]; apply in_app_or in Hg; destruct Hg as [Hg|Hg].
+           ++ destruct up as [u|]; simpl in Hg; [|contradiction]. destruct Hg as [->|[]]. right. exists g. auto.
+           ++ left. left. split; auto. exists g. split; auto. apply Hin; auto.
+           ++ destruct up as [u|]; simpl in Hg; [|contradiction]. destruct Hg as [->|[]]. right. exists g. auto.
+           ++ left. right. left. split; auto. exists g. split; auto. apply Hin; auto.
+           ++ destruct up as [u|]; simpl in Hg; [|contradiction]. destruct Hg as [->|[]]. right. exists g. auto.
+           ++ left. right. right. exists g. split; auto. apply Hin; auto.
+        -- left. right. left. split; auto. exists c. auto.
+        -- left. left. split; auto. exists c. auto.
+    + intros [[[-> [g [Hg ->]]]|[[-> [g [Hg ->]]]|[g [Hg Hga]]]]|[u [-> Hu]]].
+      * apply Hin in Hg. destruct Hg as [->|Hg].
+        -- right. exists u'. split; auto.
+        -- right. exists u'. split; auto. left. apply adjacent_node_iff. left. split; auto. exists g. split; auto. apply in_or_app; auto.
+      * apply Hin in Hg. destruct Hg as [->|Hg].
+        -- right. exists u'. split; auto.
+        -- right. exists u'. split; auto. left. apply adjacent_node_iff. right. left. split; auto. exists g. split; auto. apply in_or_app; auto.
+      * apply Hin in Hg. destruct Hg as [->|Hg]; auto.
+        right. exists u'. split; auto. left. apply adjacent_node_iff. right. right. exists g. split; auto. apply in_or_app; auto.
+      * right. exists u'. split; auto. left. apply adjacent_node_iff.
+        destruct Hu as [Hu|[[-> ->]|[-> ->]]].
+        -- right. right. exists u. split; auto. apply in_or_app. left. left. reflexivity.
+        -- left. split; auto. exists u. split; auto. apply in_or_app. left. left. reflexivity.
+        -- right. left. split; auto. exists u. split; auto. apply in_or_app. left. left. reflexivity.
+Qed.
+
+Lemma reroot_at_defined : forall t x up, In x (ids t) -> exists r, reroot_at x up t = Some r.
+Proof.
+  induction t as [i cs IH] using rtree_ind2. intros x up Hx. rewrite Forall_forall in IH. simpl.
+  destruct (Nat.eqb i x) eqn:E; [eauto|]. apply Nat.eqb_neq in E. simpl in Hx. destruct Hx as [Hx|Hx]; [congruence|].
+  apply in_flat_map in Hx. destruct Hx as [c [Hc Hx]].
+  match goal with |- exists r, first_some ?f cs = Some r => destruct (first_some f cs) as [r|] eqn:F end; [eauto|].
+  exfalso. rewrite first_some_None in F. specialize (F c Hc). simpl in F.
+  destruct (IH c Hc x (Some (RNode i (opt_list up ++ remove_child (rid c) cs))) Hx) as [r Hr]. congruence.
+Qed.
+
+(* distance_to_node for every centre: the keys are the nodes, the values the path lengths *)
+Theorem distance_spec : forall t c, NoDup (ids t) -> In c (ids t) ->
+  exists d, distance_to_node t c = Some d /\ Permutation (map fst d) (ids t) /\
+    forall x, In x (ids t) ->
+      exists p, path_from_to t c x = Some p /\ assoc x d = Some (length p - 1).
+Proof.
+  intros t c Hw Hc. destruct (reroot_at_defined t c None Hc) as [r Hr].
+  destruct (reroot_at_spec t c None r) as [Hrid [Hp Hadj]]; auto.
+  { simpl. rewrite app_nil_r. exact Hw. }
+  simpl in Hp. rewrite app_nil_r in Hp.
+  assert (Hwr : NoDup (ids r)) by (eapply Permutation_NoDup; [apply Permutation_sym; exact Hp | exact Hw]).
+  exists (depths 0 r). unfold distance_to_node, reroot. rewrite Hr. split; [reflexivity|]. split.
+  - rewrite depths_keys. exact Hp.
+  - intros x Hx. apply (Permutation_in _ (Permutation_sym Hp)) in Hx.
+    destruct (root_distance_spec r Hwr) as [_ [_ Hd]]. destruct (Hd x Hx) as [p [Hpath Has]].
+    exists p. split; auto. rewrite Hrid in Hpath.
+    assert (Hcr : In c (ids r)) by (rewrite <- Hrid; apply rid_in_ids).
+    destruct (path_from_to_spec r c x Hwr Hcr Hx) as [p' [Hp' [Hhd [Hlast [Hch Hnd]]]]].
+    rewrite Hpath in Hp'. inversion Hp'; subst p'.
+    apply path_unique; auto.
+    eapply chain_mono; [|exact Hch]. intros a b Hab. apply Hadj in Hab. destruct Hab as [Hab|[u [Eu _]]]; [auto | discriminate].
+Qed.
